@@ -30,7 +30,7 @@ def crashImage (c : Cfg) (s : St) (tail : Mem) : Mem := s.image c ++ tail
 theorem boundary (c : Cfg) (s : St) (free : List Seg) (lives : List Ext) (magic : Nat) (o : OpenOpts) (tail : Mem)
     (hinv : CInv c s free lives) (hwf : C05.WellFormedFile c s magic) (ho : C05.Matches o c magic)
     (hcap : match o.cap with | some n => s.allocated ≤ n ∧ n + 8192 ≤ TWO32 | none => (s.cap + tail.size) + 8192 ≤ TWO32)
-    (hr : o.sync = true → 1 ≤ o.retries ∧ o.retries ≤ 255) :
+    (hr : o.sync = true → o.retries ≤ 255) :
     ∃ r fs', openWritable o false (some (crashImage c s tail)) = (.ok r, fs') ∧
       r.st.allocated = s.allocated ∧ r.cfg.dataOffset ≤ r.st.allocated ∧ r.st.allocated ≤ r.st.cap ∧
       (∀ i, i < s.allocated → r.st.mem.rd i = (s.image c).rd i) ∧
